@@ -14,6 +14,8 @@ package main
 import (
 	"go/ast"
 	"go/token"
+	"go/types"
+	"strings"
 
 	"wv/core"
 )
@@ -75,6 +77,102 @@ func runC01IterJump(k *gctx) {
 		}
 	}
 	c.Floor("O15.iterjump", "SetJumpTarget calls in lang/parse", n, 1)
+}
+
+// runC01AsMask (O16.mask): cgen drops the mask of `(e & M) as base.uN` only
+// when M equals the destination type's maximum 2^N-1 (the C conversion does
+// exactly that masking). The checker derives the converted value's range from
+// the masked expression and indexing is emitted unchecked, so a dropped mask
+// with zero bits in the low N positions (0xFFFF_FFF0 as u8) lets run-time values
+// leave the derived range (independently seeded change C01-6: `== 0` → `>= 0`).
+func runC01AsMask(k *gctx) {
+	c := k.c
+	fl := k.flow("O16", "internal/cgen", "gen", "writeExprAs")
+	if fl == nil {
+		return
+	}
+	info := fl.F.Info()
+	lhs := fl.Param(1)
+	// the mask variable: a local *big.Int assigned from package-level maxUintN values
+	var maskVar types.Object
+	wantMax := map[string]uint64{"maxUint8": 0xFF, "maxUint16": 0xFFFF, "maxUint32": 0xFFFFFFFF, "maxUint64": 0xFFFFFFFFFFFFFFFF}
+	var badTable []string
+	nTable := 0
+	for obj, defs := range fl.Defs() {
+		for _, d := range defs {
+			if o := fl.Obj(d); o != nil {
+				if _, ok := wantMax[o.Name()]; ok && o.Pkg() != nil && o.Parent() == o.Pkg().Scope() {
+					maskVar = obj
+				}
+			}
+		}
+	}
+	if maskVar == nil {
+		c.Undecided("O16.mask", fl.F.Name(), "the redundant-mask variable (assigned from maxUint8/16/32) exists", "not found")
+		return
+	}
+	// table: case t.IDUn: mask = maxUintN  (N agrees)
+	ast.Inspect(fl.F.Decl.Body, func(n ast.Node) bool {
+		cc, ok := n.(*ast.CaseClause)
+		if !ok || len(cc.List) != 1 || len(cc.Body) == 0 {
+			return true
+		}
+		as, ok := cc.Body[0].(*ast.AssignStmt)
+		if !ok || len(as.Lhs) != 1 || fl.Obj(as.Lhs[0]) != maskVar {
+			return true
+		}
+		caseObj := fl.Obj(cc.List[0])
+		valObj := fl.Obj(as.Rhs[0])
+		if caseObj == nil || valObj == nil {
+			return true
+		}
+		nTable++
+		bits := strings.TrimPrefix(caseObj.Name(), "IDU")
+		if "maxUint"+bits != valObj.Name() {
+			badTable = append(badTable, k.g.Pos(cc.Pos())+": case "+caseObj.Name()+" uses "+valObj.Name())
+		}
+		// and the value of maxUintN is 2^N-1
+		if v, ok := k.bigVarVal(valObj); ok {
+			if uint64(v) != wantMax[valObj.Name()] {
+				badTable = append(badTable, k.g.Pos(cc.Pos())+": "+valObj.Name()+" is not 2^N-1")
+			}
+		}
+		return true
+	})
+	c.Check(len(badTable) == 0 && nTable >= 3, "O16.table", fl.F.Name()+"[redundantMask]", "the mask that the C conversion to base.uN makes redundant is 2^N-1 for that N", nTable, strings.Join(badTable, "\n"))
+	// every re-pointing of lhs to one of its own operands is behind `otherOperand.ConstValue().Cmp(mask) == 0`
+	var drops []*ast.AssignStmt
+	ast.Inspect(fl.F.Decl.Body, func(n ast.Node) bool {
+		as, ok := n.(*ast.AssignStmt)
+		if ok && as.Tok == token.ASSIGN && len(as.Lhs) == 1 && fl.Obj(as.Lhs[0]) == lhs && core.Mentions(info, as.Rhs[0], lhs) {
+			drops = append(drops, as)
+		}
+		return true
+	})
+	c.Floor("O16", "places where writeExprAs replaces the converted expression by one of its operands", len(drops), 2)
+	for _, d := range drops {
+		d := d
+		k.mustPass("O16.mask", fl.F.Name()+"["+core.Src(k.g.Fset, d)+"]",
+			"the `& M` of `(e & M) as base.uN` is dropped only when M equals 2^N-1 (`cv.Cmp(redundantMask) == 0`): the bounds checker computed the converted value's range from the masked expression, and indexing with it is emitted unchecked",
+			fl, core.Query{
+				Exit: func(n ast.Node) bool { return n == ast.Node(d) },
+				Events: []core.Event{{Edge: func(cond ast.Expr, ci *core.CondInfo, taken bool) bool {
+					if !taken {
+						return false
+					}
+					for _, at := range flattenAnd(cond) {
+						a, b, rel, ok := cmpAtom(fl, at)
+						if !ok || rel != token.EQL {
+							continue
+						}
+						if fl.Obj(b) == maskVar || fl.Obj(a) == maskVar {
+							return true
+						}
+					}
+					return false
+				}}},
+			})
+	}
 }
 
 func runC01ArgChecks(k *gctx) {
